@@ -12,6 +12,7 @@ import (
 	"strings"
 
 	"verifharness/internal/mpexec"
+	"verifharness/internal/tlaval"
 	"verifharness/internal/sysdefs"
 )
 
@@ -61,6 +62,17 @@ func runOne(run int, sysName string, n int, seed int64, maxSteps int, policy str
 	r := rand.New(rand.NewSource(seed))
 	s := build(sysName, n, args)
 	s.Oracle = &mpexec.RandOracle{R: r}
+	crashW := 1.0
+	if policy == "biased" {
+		// rare timeouts / suspicions so that the system makes progress; the rates vary per run
+		rates := []float64{0.01, 0.03, 0.1, 0.3}
+		pT, pC, pF := rates[r.Intn(4)], rates[r.Intn(4)], rates[r.Intn(4)]
+		s.Oracle = &mpexec.BiasOracle{R: r,
+			Bias: map[string]float64{"leaderTimeout": pT, "timeout": pC, "fd[": pF, "netLen[": 0.9},
+			Pick: map[string]int{"leaderTimeout": 0, "timeout": 0, "fd[": 1, "netLen[": -1}}
+		crashW = []float64{0.0, 0.02, 0.1}[r.Intn(3)]
+		policy = fmt.Sprintf("biased pT=%v pC=%v pF=%v crash=%v", pT, pC, pF, crashW)
+	}
 	emit(line{E: "case", Run: run, Sys: sysName, Policy: policy, Seed: seed})
 	if err := s.Start(); err != nil {
 		emit(line{E: "error", Msg: err.Error()})
@@ -69,7 +81,9 @@ func runOne(run int, sysName string, n int, seed int64, maxSteps int, policy str
 	}
 	emit(line{E: "step", Proc: "", Label: "Init", State: s.DumpState(nil)})
 	failedSince := map[*mpexec.Proc]bool{}
-	for s.Steps < maxSteps {
+	attempts := 0
+	for s.Steps < maxSteps && attempts < 30*maxSteps {
+		attempts++
 		live := s.Live()
 		var cand []*mpexec.Proc
 		for _, p := range live {
@@ -81,6 +95,12 @@ func runOne(run int, sysName string, n int, seed int64, maxSteps int, policy str
 			break // quiescent: all done, or every live process is disabled (deterministic bodies aside from choices: retried below)
 		}
 		p := cand[r.Intn(len(cand))]
+		if p.Group == "crasher" && r.Float64() >= crashW {
+			if len(cand) == 1 {
+				break
+			}
+			continue
+		}
 		res, err := s.Step(p)
 		if err != nil {
 			emit(line{E: "error", Msg: err.Error()})
@@ -95,8 +115,9 @@ func runOne(run int, sysName string, n int, seed int64, maxSteps int, policy str
 			failedSince = map[*mpexec.Proc]bool{}
 		} else {
 			emit(line{E: "abort", Proc: p.Self.String(), Label: res.Label, Choices: res.Choices})
-			// an aborted attempt with choices may succeed under another resolution: retry a few times
-			if len(res.Choices) == 0 || r.Intn(4) == 0 {
+			// an aborted attempt that consulted choices may succeed under another resolution;
+			// one without choices is disabled until some other process commits
+			if len(res.Choices) == 0 {
 				failedSince[p] = true
 			}
 		}
@@ -220,6 +241,87 @@ func runDFS(sysName string, n int, maxSteps int, maxRuns int, args map[string]in
 	out.WriteByte('\n')
 }
 
+// ---- guided replay of TLC behaviours (S->I): the Go must be able to follow every spec step ----
+
+type behaviour struct {
+	ID     string   `json:"id"`
+	States []string `json:"states"`
+}
+
+func runGuided(sysName string, n int, traceFile string, args map[string]int) {
+	fh, err := os.Open(traceFile)
+	if err != nil {
+		panic(err)
+	}
+	defer fh.Close()
+	sc := bufio.NewScanner(fh)
+	sc.Buffer(make([]byte, 1<<20), 1<<28)
+	run := 0
+	for sc.Scan() {
+		if len(strings.TrimSpace(sc.Text())) == 0 {
+			continue
+		}
+		var b behaviour
+		if err := json.Unmarshal(sc.Bytes(), &b); err != nil {
+			panic(err)
+		}
+		run++
+		s := build(sysName, n, args)
+		emit(line{E: "case", Run: run, Sys: sysName, Policy: "guided", Msg: b.ID})
+		cur, err := s.InitialState()
+		if err != nil {
+			emit(line{E: "error", Msg: err.Error()})
+			continue
+		}
+		d := s.Dump(cur)
+		if len(b.States) == 0 {
+			continue
+		}
+		if tlaval.MustCanon(d) != tlaval.MustCanon(b.States[0]) {
+			emit(line{E: "diverge", Label: "Init", Msg: "initial state of the Go system differs from the behaviour's first state", State: d})
+			emit(line{E: "end"})
+			continue
+		}
+		emit(line{E: "step", Label: "Init", State: d})
+		curCanon := tlaval.MustCanon(d)
+		for i := 1; i < len(b.States); i++ {
+			want := tlaval.MustCanon(b.States[i])
+			if want == curCanon {
+				continue // stuttering step of the spec (e.g. Terminating)
+			}
+			found := false
+			var tried []string
+			for pi := range s.Procs {
+				if cur.P[pi].PC == "Done" {
+					continue
+				}
+				for _, sc := range s.Successors(cur, pi) {
+					if sc.Err != nil {
+						tried = append(tried, fmt.Sprintf("%v@%s: error %v", s.Procs[pi].Self, sc.Label, sc.Err))
+						continue
+					}
+					dd := s.Dump(sc.Next)
+					if tlaval.MustCanon(dd) == want {
+						cur, curCanon, found = sc.Next, want, true
+						emit(line{E: "step", Proc: s.Procs[pi].Self.String(), Label: sc.Label, State: dd, Choices: sc.Choices})
+						break
+					}
+				}
+				if found {
+					break
+				}
+				tried = append(tried, fmt.Sprintf("%v@%s", s.Procs[pi].Self, cur.P[pi].PC))
+			}
+			if !found {
+				emit(line{E: "diverge", Run: i, Msg: "no attempt of any generated archetype reaches the spec's successor state; tried " + strings.Join(tried, ", "),
+					State: b.States[i]})
+				break
+			}
+		}
+		emit(line{E: "end"})
+	}
+}
+
 // ---- stateful exploration of the complete state graph (fresh context per step) ----
 
 func runBFS(sysName string, n int, maxStates int, args map[string]int) {
@@ -287,6 +389,7 @@ func main() {
 	policy := flag.String("policy", "random", "")
 	outF := flag.String("out", "steps.ndjson", "")
 	extra := flag.String("args", "", "k=v,k=v extra integer parameters")
+	traceF := flag.String("trace", "", "ndjson of TLC behaviours for -policy guided")
 	flag.Parse()
 	args := map[string]int{}
 	for _, kv := range strings.Split(*extra, ",") {
@@ -306,6 +409,10 @@ func main() {
 	}
 	out = bufio.NewWriter(fh)
 	defer func() { out.Flush(); fh.Close() }()
+	if *policy == "guided" {
+		runGuided(*sysName, *n, *traceF, args)
+		return
+	}
 	if *policy == "bfs" {
 		runBFS(*sysName, *n, *maxSteps, args)
 		return
